@@ -64,6 +64,17 @@ MUTATIONS = {
     "recover-skips-wills": ("Model/Redb.v", "  fold_left (fun s cl => fold_left (fun s kv => fst (do_insert s 0 (fst kv) (Plain (snd kv)) true)) (snd cl) s) (t_lw t) s1.\n\n(* a whole run",
                             "  s1.\n\n(* a whole run", ["C18"]),
     "internal-delete-clears-table": ("Model/Redb.v", "if starts_with s_SYS_prefix k then (if N.eqb c 0 then [] else reg_del k) else [ADel k].", "if starts_with s_SYS_prefix k then reg_del k else [ADel k].", ["C18"]),
+    # ---- third batch: the REST model, the new client commands, the repaired import ----
+    "rest-ls-auth-on-parent": ("Model/Rest.v", "| RLs parent => (PRead, ls_pattern parent)", "| RLs parent => (PRead, match parent with Some p => p | None => ls_pattern None end)", ["C15"]),
+    "rest-export-needs-write": ("Model/Rest.v", "| RExport => (PRead, s_hash_pat)", "| RExport => (PWrite, s_hash_pat)", ["C15"]),
+    "rest-invalid-token-401": ("Model/Rest.v", "| TInvalid => Some 403", "| TInvalid => Some 401", ["C15"]),
+    "rest-writes-as-server": ("Model/Rest.v", "Definition rest_cid : cid := 254.", "Definition rest_cid : cid := 0.", ["C08"]),
+    "rest-missing-is-204": ("Model/Rest.v", "else if N.eqb code 5 then 404", "else if N.eqb code 5 then 204", ["C01"]),
+    "import-reaches-sys": ("Model/Core.v", "let other := strip_sys s_SYS other0 in", "let other := other0 in", ["C08", "C01"]),
+    "cget-async-sends-get": ("Model/Client.v", "| CCGetAsync k => (plain, MCGet t k, Ticket t)", "| CCGetAsync k => (plain, MGet t k, Ticket t)", ["C20"]),
+    "lock-async-awaits": ("Model/Client.v", "| CLockAsync k => (plain, MLock t k, Ticket t)", "| CLockAsync k => (plain, MAcquireLock t k, Ticket t)", ["C20"]),
+    "two-race-winners": ("Model/Core.v", "      else if N.eqb vc n then bump v n true (negb (json_eqb c v))\n      else DErr E_CasVersionMismatch",
+                         "      else if N.leb vc (n + 1) then bump v n true (negb (json_eqb c v))\n      else DErr E_CasVersionMismatch", ["C02"]),
     "ticket-unsub-needs-callback": ("Model/Client.v", "      (CState n (ack c) (state c) (cstate_ c) (pstate c) (lsstate c) (cb_remove tid (sub c)) (cb_remove tid (psub c)) (subls c),\n       MUnsubscribe tid, Ticket tid)",
                                     "      (CState n (ack c) (state c) (cstate_ c) (pstate c) (lsstate c) (cb_remove tid (sub c)) (cb_remove tid (psub c)) (subls c),\n       MUnsubscribeLs tid, Ticket tid)", ["C20"]),
 }
